@@ -88,9 +88,12 @@ CHECKS = {
              "another exception nor DeclarationError; ill_formed_raises shows the well-formedness hypothesis is needed, "
              "F22) and subst_idempotent + subst_result_revalidates (for every plain value with s % v = s': "
              "s' % v = s', the SAME schema, and the partial validator accepts v at every path - also at the choice "
-             "points where 'the result accepts v' fails). 'Never returns a schema that cannot be generated from' is "
-             "decided per run by the oracle on /repo (when every sub-schema of S generates accepted values under "
-             "min/max/random tapes, so must S % v) - partial in that clause.",
+             "points where 'the result accepts v' fails); subst_result_wf; subst_preserves_sat + "
+             "subst_result_can_be_generated_from ('never returns a schema that cannot be generated from': under hsat - a "
+             "decidable hypothesis on the ORIGINAL schema about the parts substitution leaves untouched - the result is "
+             "sat, so for every world and every tape the generator returns a value the result accepts; "
+             "sat_alone_is_not_preserved shows the hypothesis cannot be plain sat). hsatb is evaluated inside Coq for the "
+             "schema of every plain case of a run; where it holds the usability oracle on /repo accepts no excuse.",
         note=COMMON_NOTE + "No open known finding. F08, F09, F10 (NaN), F11, F22, F28, F31 (a '...' member of "
              "an untyped dict) were repaired by fix: commits.",
         technique="Coq proof (outcome-class invariant + fixpoint lemma by nested induction over schemas and values) + vm_compute correspondence + direct oracle",
